@@ -751,6 +751,26 @@ func (e *Env) evalCall(n ECall) tv {
 			return tv{Sc{T: iv.Val}, types.NewPointer(t)}
 		}
 		return tv{c.unbox(s, iv.Val, t), t}
+	case "mapkey":
+		// mapkey(v): the engine's encoding of a (struct) map key as a single term
+		v := e.eval(n.Args[0])
+		return tv{Sc{T: c.mapKeyTerm(s, v.v, v.t)}, types.Typ[types.UnsafePointer]}
+	case "clock":
+		return tv{Sc{T: c.getHeap(s, "Clock", SInt)}, types.Typ[types.Int]}
+	case "visited":
+		// visited(k): key k has already been produced by the map range running in this frame
+		if e.frame == nil || len(e.frame.rangeVisited) == 0 {
+			return e.fail("visited(): no map range in progress")
+		}
+		var vis Term
+		for _, t := range e.frame.rangeVisited {
+			vis = t
+		}
+		k := e.eval(n.Args[0])
+		return tv{Sc{T: Select(vis, c.mapKeyTerm(s, k.v, k.t))}, boolT}
+	case "fnonneg":
+		v := e.eval(n.Args[0])
+		return tv{Sc{T: c.d.Apply("fnonneg", []Term{v.v.(Sc).T}, SBool)}, boolT}
 	case "byteat":
 		v := e.eval(n.Args[0])
 		i := e.asInt(e.eval(n.Args[1]))
@@ -1001,4 +1021,18 @@ func (e *Env) ipnetContains(nip, mask, ip Sl) Term {
 		c6 = append(c6, Eq(band(e.byteOf(nip, i), e.byteOf(mask, i)), band(e.byteOf(ip, i), e.byteOf(mask, i))))
 	}
 	return Or(And(c4...), And(c6...))
+}
+
+// lockOf resolves a mutex expression x.mu to the lock key and owning object.
+func (e *Env) lockOf(x Expr) (string, Term, bool) {
+	sel, ok := x.(ESel)
+	if !ok {
+		return "", Term{}, false
+	}
+	base := e.eval(sel.X)
+	_, ref, ok := e.structOf(base)
+	if !ok {
+		return "", Term{}, false
+	}
+	return shortTypeKey(derefType(base.t)) + "." + sel.Name, ref, true
 }
